@@ -2,7 +2,7 @@
 """dev helper: copy finished sub-agent mutations /tmp/mut/<P>/MUT/<k>/ into /verif/seeded/<P>-<k>/ (normalising demo_cmd)"""
 import json, os, re, shutil, sys
 for P in sys.argv[1:]:
-    for k in ("1", "2", "3", "4", "5", "6", "7", "8", "9"):
+    for k in ("1", "2", "3", "4", "5", "6", "7", "8", "9", "a", "b"):
         src = f"/tmp/mut/{P}/MUT/{k}"
         if not os.path.exists(os.path.join(src, "patch.diff")):
             continue
